@@ -42,7 +42,7 @@ type twinReq struct {
 }
 
 type faultPlan struct {
-	Kind   string `json:"kind,omitempty"` // "" | set | commit | src-open | proc-open
+	Kind   string `json:"kind,omitempty"` // "" | set | commit | src-open | proc-open | stop-flush
 	Index  int    `json:"index,omitempty"`
 	Prefix string `json:"prefix,omitempty"` // key prefix of the store writes the set fault counts
 	Comp   string `json:"comp,omitempty"`   // the plugin whose Open fails (documentation only, the script is in Lab)
@@ -155,6 +155,9 @@ func (t *provTxn) Discard() {
 type lifeAdapter struct {
 	w   *lab.World
 	eng provisioning.LifecycleService
+	// failFlush: fault kind "stop-flush"
+	failFlush  bool
+	flushArmed bool
 }
 
 func (l *lifeAdapter) note(ctx context.Context, what string, err error) {
@@ -184,6 +187,18 @@ func (l *lifeAdapter) Stop(ctx context.Context, id string, force bool) error {
 
 func (l *lifeAdapter) StopAndWait(ctx context.Context, id string) error {
 	l.note(ctx, "life.stopandwait.call", nil)
+	if l.failFlush && !l.flushArmed && tagOf(ctx) == "apply#0" {
+		// scripted failure of the stop: the next position flush of the drain cannot be committed
+		l.flushArmed = true
+		before := l.w.DB.Fired
+		l.w.DB.Arm(lab.Fault{Kind: lab.FaultCommit, Index: 0})
+		defer func() {
+			l.w.DB.Disarm()
+			if l.w.DB.Fired > before {
+				l.w.Log.N(lab.EvNote, tagOf(ctx), 0, "stop-flush-fault fired")
+			}
+		}()
+	}
 	err := l.eng.StopAndWait(ctx, id)
 	l.note(ctx, "life.stopandwait.ret", err)
 	return err
@@ -399,10 +414,40 @@ type exec struct {
 	w      *lab.World
 	prov   *provisioning.Service
 	pdb    *provDB
-	runner *lab.Runner
 	res    *result
-	active map[string]*int32 // pipeline id -> outstanding applies
 	early  map[string]string // tag -> hash planned before the first request was issued
+
+	outstanding int32 // control calls issued by this harness that have not returned
+	applies     int32 // outstanding ApplyPlanLive calls (all pipelines)
+	mu          sync.Mutex
+	posts       map[int]map[string]*post // request -> pipeline id -> state once no apply is outstanding
+	groupPids   map[int][]string
+}
+
+// callAsync issues a control call on its own goroutine and records call/return in the history
+// (lab.Runner.Call is not used for them: it reads the pipeline's error field without a lock,
+// which races with a status write of a run that another outstanding call is stopping).
+func (x *exec) callAsync(tag string, done chan struct{}, f func(ctx context.Context) error) {
+	atomic.AddInt32(&x.outstanding, 1)
+	x.w.Log.Add(lab.Event{Kind: lab.EvCtlCall, Comp: tag, Src: -1, Seq: -1})
+	go func() {
+		err := f(context.Background())
+		info := ""
+		if err != nil {
+			info = trunc(err.Error(), 300)
+		}
+		x.w.Log.Add(lab.Event{Kind: lab.EvCtlRet, Comp: tag, Src: -1, Seq: -1, OK: err == nil, Info: info})
+		atomic.AddInt32(&x.outstanding, -1)
+		close(done)
+	}()
+}
+
+func (x *exec) status() pipeline.Status {
+	p, err := x.w.Pipelines.Get(context.Background(), lab.PipelineID)
+	if err != nil {
+		return 0
+	}
+	return p.GetStatus()
 }
 
 func exportNorm(prov *provisioning.Service, id string) (string, error) {
@@ -430,29 +475,37 @@ func (x *exec) prepare(c *call, desired config.Pipeline) error {
 }
 
 func (x *exec) launch(c *call, desired config.Pipeline) {
-	cnt := x.active[c.Pipeline]
-	atomic.AddInt32(cnt, 1)
+	atomic.AddInt32(&x.applies, 1)
 	c.done = make(chan struct{})
 	x.res.Calls = append(x.res.Calls, c)
-	x.runner.Call(c.Tag, func(ctx context.Context) error {
+	x.callAsync(c.Tag, c.done, func(ctx context.Context) error {
 		ctx = context.WithValue(ctx, tagKey{}, c.Tag)
 		diff, err := x.prov.ApplyPlanLive(ctx, desired, c.Hash, c.Allow)
 		c.Err, c.ErrCode, c.Mode = err, errCode(err), diff.AppliedMode
 		if p, gerr := x.w.Pipelines.Get(ctx, c.Pipeline); gerr == nil {
 			c.StatusAfter = p.GetStatus()
 		}
-		if atomic.AddInt32(cnt, -1) == 0 {
-			p := &post{}
-			exp, eerr := exportNorm(x.prov, c.Pipeline)
-			p.Export = exp
-			if eerr != nil {
-				p.ExportErr = eerr.Error()
+		if atomic.AddInt32(&x.applies, -1) == 0 {
+			// no apply is outstanding any more: look at the state of every pipeline of this request
+			x.mu.Lock()
+			pids := x.groupPids[c.Req]
+			x.mu.Unlock()
+			store := x.w.DB.Current()
+			got := map[string]*post{}
+			for _, pid := range pids {
+				p := &post{Store: store}
+				exp, eerr := exportNorm(x.prov, pid)
+				p.Export = exp
+				if eerr != nil {
+					p.ExportErr = eerr.Error()
+				}
+				p.Mem = memSnapshot(x.w, pid)
+				got[pid] = p
 			}
-			p.Mem = memSnapshot(x.w, c.Pipeline)
-			p.Store = x.w.DB.Current()
-			c.Post = p
+			x.mu.Lock()
+			x.posts[c.Req] = got
+			x.mu.Unlock()
 		}
-		close(c.done)
 		return err
 	})
 }
@@ -509,9 +562,39 @@ func (x *exec) issue(i int) error {
 			main.Overlapped, twin.Overlapped = true, true
 		}
 	}
+	pids := []string{main.Pipeline}
+	if twin != nil && twin.Pipeline != main.Pipeline {
+		pids = append(pids, twin.Pipeline)
+	}
+	x.mu.Lock()
+	x.groupPids[i] = pids
+	x.mu.Unlock()
+	// both calls are counted before either can finish, so that the state is looked at only
+	// once both have returned
+	atomic.AddInt32(&x.applies, 1)
 	x.launch(main, md)
 	if twin != nil {
 		x.launch(twin, td)
+	}
+	if atomic.AddInt32(&x.applies, -1) == 0 {
+		// (both already returned: cannot happen before launch returned the goroutines' results,
+		// but keep the invariant that somebody takes the snapshot)
+		x.mu.Lock()
+		_, ok := x.posts[i]
+		x.mu.Unlock()
+		if !ok {
+			store := x.w.DB.Current()
+			got := map[string]*post{}
+			for _, pid := range pids {
+				p := &post{Store: store}
+				p.Export, _ = exportNorm(x.prov, pid)
+				p.Mem = memSnapshot(x.w, pid)
+				got[pid] = p
+			}
+			x.mu.Lock()
+			x.posts[i] = got
+			x.mu.Unlock()
+		}
 	}
 	return nil
 }
@@ -544,10 +627,9 @@ func runC16(cs *c16Case, pick func(n int) int) *result {
 	if c.Engine == "v2" {
 		eng = w.V2
 	}
-	life := &lifeAdapter{w: w, eng: eng}
+	life := &lifeAdapter{w: w, eng: eng, failFlush: cs.Fault.Kind == "stop-flush"}
 	prov := provisioning.NewService(pdb, w.Logger, w.Pipelines, w.Connectors, w.Processors, w.Plugins, life, "")
-	var a1, a2 int32
-	x := &exec{cs: cs, w: w, prov: prov, pdb: pdb, res: res, active: map[string]*int32{lab.PipelineID: &a1, otherID: &a2}, early: map[string]string{}}
+	x := &exec{cs: cs, w: w, prov: prov, pdb: pdb, res: res, early: map[string]string{}, posts: map[int]map[string]*post{}, groupPids: map[int][]string{}}
 
 	finish := func() *result {
 		res.Events = w.Log.Snapshot()
@@ -581,13 +663,10 @@ func runC16(cs *c16Case, pick func(n int) int) *result {
 	}
 	defer w.Close()
 
-	r := &lab.Runner{W: w, Pick: pick}
-	x.runner = r
 	startDone := make(chan struct{})
 	var startErr error
-	r.Call("start", func(ctx context.Context) error {
+	x.callAsync("start", startDone, func(ctx context.Context) error {
 		startErr = w.Engine().Start(ctx, lab.PipelineID)
-		close(startDone)
 		return startErr
 	})
 	started := func() bool {
@@ -657,8 +736,8 @@ func runC16(cs *c16Case, pick func(n int) int) *result {
 			continue
 		}
 		// idle: nothing pending, nothing logged for `idle`
-		st, _ := w.Status()
-		out := r.Outstanding()
+		st := x.status()
+		out := int(atomic.LoadInt32(&x.outstanding))
 		if next < len(cs.Reqs) && started() && startErr == nil && allReturned() {
 			if tryIssue() {
 				silentSince = time.Now()
@@ -674,7 +753,16 @@ func runC16(cs *c16Case, pick func(n int) int) *result {
 			}
 			if (st == pipeline.StatusRunning || st == pipeline.StatusRecovering) && finalStops < 6 {
 				finalStops++
-				r.Issue(lab.ClientAction{Kind: "stopwait"})
+				// end of script: drain the pipeline with a graceful stop
+				x.callAsync("stopwait", make(chan struct{}), func(ctx context.Context) error {
+					eng := w.Engine()
+					if err := eng.Stop(ctx, lab.PipelineID, false); err != nil {
+						return err
+					}
+					err := eng.WaitPipeline(lab.PipelineID)
+					w.Connectors.WaitPersisted()
+					return err
+				})
 				silentSince = time.Now()
 				continue
 			}
@@ -700,8 +788,8 @@ func runC16(cs *c16Case, pick func(n int) int) *result {
 	if started() {
 		res.StartErr = startErr
 	}
-	res.FinalStatus, res.FinalErr = w.Status()
-	if !res.Wedged && r.Outstanding() == 0 {
+	res.FinalStatus = x.status() // (the error text is not read: the field is written without a lock by a run that is still failing)
+	if !res.Wedged && atomic.LoadInt32(&x.outstanding) == 0 {
 		for _, id := range []string{lab.PipelineID, otherID} {
 			if e, err := exportNorm(prov, id); err == nil {
 				res.FinalExport[id] = e
@@ -709,6 +797,13 @@ func runC16(cs *c16Case, pick func(n int) int) *result {
 		}
 	}
 	res.Events = w.Log.Snapshot()
+	x.mu.Lock()
+	for _, cl := range res.Calls {
+		if cl.returned() {
+			cl.Post = x.posts[cl.Req][cl.Pipeline]
+		}
+	}
+	x.mu.Unlock()
 	for _, cl := range res.Calls {
 		cl.CallIdx, cl.RetIdx = -1, -1
 		for i, e := range res.Events {
